@@ -128,12 +128,15 @@ def run(ctx):
         v = rst.env.get(f"{sp}._session_id")
         if v is not None and any(x[0] == "sub" and x[2] == ("const", "sessionId") and any(call_is(y, f"{NH}._api_request") for y in subterms(x[1])) for x in subterms(v)):
             sid_ok = True
-    for n, t in ls.ta.terms_at.items():
+    from ..helpers import term_lookup, with_helpers
+    ltl = term_lookup(prog, lg)
+    login_calls = [(n2, ltl(n2)) for f2 in with_helpers(prog, lg) for n2 in ast.walk(f2.node) if isinstance(n2, ast.Call) and ltl(n2) is not None]
+    for n, t in login_calls:
         if isinstance(n, ast.Call) and meth_is(t, "encrypt_password") and len(t[2]) == 2:
             a0 = strip(t[2][0])
             lid_src = a0 == ("attr", ("param", sp), "_login_id") or any(call_is(x, f"{BASE}._get_login_id") for x in subterms(a0))
             pw_ok = lid_src and strip(t[2][1]) == ("attr", ("param", sp), "_password")
-    lid_first = any(call_is(t, f"{BASE}._get_login_id") for n, t in ls.ta.terms_at.items() if isinstance(n, ast.Call))
+    lid_first = any(call_is(t, f"{BASE}._get_login_id") for n, t in login_calls)
     ctx.ob("C19.a", lg.qual, sid_ok and pw_ok and lid_first, "login fetches the login id, sends the derived password, and stores the response's sessionId for later requests",
            func=lg.qual, file=file, construct="login", fail="login no longer derives the password from the login id / stores the session id of the response")
     # ---------------------------------------------------------------- C19.b
@@ -239,32 +242,65 @@ def run(ctx):
     ads = summarize(prog, ad)
     dv = ad.params[1]
     fors = [n for n in ast.walk(ad.node) if isinstance(n, ast.For)]
-    it_v = prog.fold_or_none(fors[0].iter, ad.module) if len(fors) == 1 else None
-    ok_iter = isinstance(it_v, (list, tuple)) and list(it_v) == ["little", "big"]          # (a list or a tuple, literal or named)
+    from ..terms import replace
+
+    def rounds(t):
+        """t as it is in each round of the loop: the one `element of <literal sequence>` in it replaced by each element in turn
+        (the sequence may hold the orders themselves or values prepared from them, e.g. (order, udpid) pairs)"""
+        its = {x for x in subterms(t) if x[0] == "iter" and ((is_const(strip(x[1])) and isinstance(strip(x[1])[1], (list, tuple))) or strip(x[1])[0] in ("tuple", "list"))}
+        if len(its) != 1:
+            return None
+        itx = next(iter(its))
+        seq = strip(itx[1])
+        elems = [("const", v) for v in seq[1]] if is_const(seq) else list(seq[1])
+        if any(e[0] in ("starred", "when") for e in elems):
+            return None
+
+        def red(x):
+            if not isinstance(x, tuple) or not x:
+                return x
+            x = tuple(red(y) if isinstance(y, tuple) else y for y in x)
+            if x[0] == "item" and x[1][0] in ("tuple", "list") and isinstance(x[2], int) and x[2] < len(x[1][1]):
+                return x[1][1][x[2]]
+            if x[0] == "item" and is_const(x[1]) and isinstance(x[1][1], (tuple, list)) and isinstance(x[2], int) and x[2] < len(x[1][1]):
+                return ("const", x[1][1][x[2]])
+            return x
+        return [red(replace(t, {itx: e})) for e in elems]
+
+    def udpid_order(ud):
+        """the byte order o when ud is udpid(<device>.id.to_bytes(6, o)).hex()"""
+        ud = strip(ud)
+        if not (meth_is(ud, "hex") and call_is(strip(ud[1][1]), "msmart.lan.Security.udpid")):
+            return None
+        idb = strip(strip(ud[1][1])[2][-1])
+        if meth_is(idb, "to_bytes") and strip(idb[1][1]) == ("attr", ("param", dv), "id") and len(idb[2]) == 2 and idb[2][0] == ("const", 6) and is_const(strip(idb[2][1])):
+            return strip(idb[2][1])[1]
+        return None
+    lp = fors[0] if len(fors) == 1 else None
+    auth_calls = [(n, ads.ta.terms_at[n]) for n in ast.walk(lp) if isinstance(n, ast.Call) and isinstance(n.func, ast.Attribute) and n.func.attr == "authenticate"
+                  and n in ads.ta.terms_at] if lp is not None else []
+    ctx.count("auth_sites", len(auth_calls))
+    orders_seen = []
+    for n, t in auth_calls:
+        args = t[2]
+        good = False
+        if len(args) == 2:
+            a, b = strip(args[0]), strip(args[1])
+            if a[0] == "item" and b[0] == "item" and a[1] == b[1] and (a[2], b[2]) == (0, 1):
+                gtc = [x for x in subterms(a[1]) if meth_is(x, "get_token")]
+                if len(gtc) == 1:
+                    per_round = rounds(strip(gtc[0][2][0]))
+                    orders = [udpid_order(u) for u in per_round] if per_round else None
+                    good = bool(orders) and None not in orders
+                    if good:
+                        orders_seen.append(orders)
+        ctx.ob("C19.d", ad.qual, good, "authenticate(token, key) uses the credentials fetched for udpid(id.to_bytes(6, <this iteration's order>))", func=ad.qual,
+               file=ad.module.rel, node=n, detail={"args": [show(x)[:160] for x in args]},
+               fail="the device is authenticated with credentials that were not fetched for this iteration's udpid (one order's token used for the other / wrong width)")
+    ok_iter = bool(orders_seen) and all(o == ["little", "big"] for o in orders_seen)
     ctx.ob("C19.d", ad.qual, ok_iter, 'the device id is tried in exactly ["little", "big"] byte order', func=ad.qual, file=ad.module.rel, construct="for endian in [...]",
-           fail="not both byte orders of the device id are tried")
-    if ok_iter:
-        lp = fors[0]
-        endian = ("iter", ads.ta.terms_at.get(lp.iter))          # this iteration's element of the byte-order collection
-        auth_calls = [(n, ads.ta.terms_at[n]) for n in ast.walk(lp) if isinstance(n, ast.Call) and isinstance(n.func, ast.Attribute) and n.func.attr == "authenticate" and n in ads.ta.terms_at]
-        ctx.count("auth_sites", len(auth_calls))
-        for n, t in auth_calls:
-            args = t[2]
-            good = False
-            if len(args) == 2:
-                a, b = strip(args[0]), strip(args[1])
-                if a[0] == "item" and b[0] == "item" and a[1] == b[1] and (a[2], b[2]) == (0, 1):
-                    src = a[1]
-                    gtc = [x for x in subterms(src) if meth_is(x, "get_token")]
-                    if len(gtc) == 1:
-                        ud = strip(gtc[0][2][0])
-                        good = meth_is(ud, "hex") and call_is(strip(ud[1][1]), "msmart.lan.Security.udpid")
-                        if good:
-                            idb = strip(strip(ud[1][1])[2][-1])
-                            good = meth_is(idb, "to_bytes") and strip(idb[1][1]) == ("attr", ("param", dv), "id") and idb[2] == (("const", 6), endian)
-            ctx.ob("C19.d", ad.qual, good, "authenticate(token, key) uses the credentials fetched for udpid(id.to_bytes(6, <this iteration's order>))", func=ad.qual,
-                   file=ad.module.rel, node=n, detail={"args": [show(x)[:160] for x in args]},
-                   fail="the device is authenticated with credentials that were not fetched for this iteration's udpid (one order's token used for the other / wrong width)")
+           detail={"orders": orders_seen}, fail="not both byte orders of the device id are tried")
+    if lp is not None:
         # continue on AuthenticationError, True on first success, False after the loop
         handlers = [h for n in ast.walk(lp) if isinstance(n, ast.Try) for h in n.handlers if "AuthenticationError" in norm(h.type or ast.Constant(""))]
         cont = bool(handlers) and all(not any(isinstance(x, (ast.Return, ast.Raise, ast.Break)) for st in h.body for x in ast.walk(st)) for h in handlers)
@@ -272,7 +308,25 @@ def run(ctx):
         falses = [(pc, node) for pc, t, node, _ in ads.returns if node is not None and is_const(t, False)]
         true_in_loop = all(any(node is x for x in ast.walk(lp)) for _pc, node in trues) and bool(trues)
         false_after = all(not any(node is x for x in ast.walk(lp)) for _pc, node in falses) and bool(falses)
-        ctx.ob("C19.d", ad.qual, cont and true_in_loop and false_after, "an AuthenticationError moves on to the next byte order; the first success returns True; False only after both failed",
+        ctl_ok = cont and true_in_loop and false_after
+        if cont and not ctl_ok and not trues and not falses:
+            # the same control written with a result flag: False before the loop, raised - followed by leaving the loop - only behind the
+            # authenticate call that went through, untouched on the way to the next byte order, and returned after the loop
+            rnames = {node.value.id if isinstance(node.value, ast.Name) else None for _pc, _t, node, _ in ads.returns if node is not None}
+            info_ = ads.loops.get(lp)
+            if info_ is not None and len(rnames) == 1 and None not in rnames:
+                fl = ("loopvar", next(iter(rnames)), lp.lineno)
+                in_handler = {id(x) for h in handlers for x in ast.walk(h)}
+                auth_line = max((n.lineno for n, _t in auth_calls), default=None)
+                brk_nodes = [x for x in ast.walk(lp) if isinstance(x, ast.Break)]
+                brk_ok = bool(brk_nodes) and auth_line is not None and all(id(x) not in in_handler and x.lineno > auth_line for x in brk_nodes)
+                in_loop = {id(x) for x in ast.walk(lp)}
+                outside_stores = [x for x in ast.walk(ad.node) if isinstance(x, ast.Name) and isinstance(x.ctx, ast.Store) and x.id == fl[1] and id(x) not in in_loop]
+                ctl_ok = len(outside_stores) == 1 and strip(info_["entry"].env.get(fl[1], ("top",))) == ("const", False) and brk_ok and bool(info_["breaks"]) \
+                    and all(strip(b.env.get(fl[1], fl)) == ("const", True) for b in info_["breaks"]) \
+                    and all(strip(e_.env.get(fl[1], fl)) == fl for e_ in info_["ends"] + info_["continues"]) \
+                    and all(not any(node is x for x in ast.walk(lp)) for _pc, _t, node, _ in ads.returns if node is not None)
+        ctx.ob("C19.d", ad.qual, ctl_ok, "an AuthenticationError moves on to the next byte order; the first success returns True; False only after both failed",
                func=ad.qual, file=ad.module.rel, construct="byte-order loop control", fail="the two-byte-order loop no longer continues on AuthenticationError / returns True on first success / False at the end")
     ud = ctx.fn("msmart.lan.Security.udpid")
     ut = summarize(prog, ud).return_term()
